@@ -321,10 +321,12 @@ def run(ctx, eng):
             len(mw) == 1 and cm.aff_is(mw[0].value, {
                 'delta': 1,
                 'self._inbound_window_manager.max_window_size': 1}) and \
-            p.index(mw[0]) > p.index(wo[0])
+            p.index(mw[0]) > p.index(wo[0]) and \
+            cm.reads_entry_value(mw[0].value, 'max_window_size')
     ctx.ob('FLOW.delta', f11.qual, 'window and maximum move by the delta',
            ok, 'window_opened(delta); max_window_size = old maximum + '
-           'delta', node=f11.node)
+           'delta (the maximum as it was BEFORE window_opened, which raises '
+           'it itself when the window outgrows it)', node=f11.node)
     f12 = m.func(H + '_begin_new_stream')
     ok = any(e.kind == 'new' and e.cls == 'H2Stream' and
              cm.attr_chain(e.kwargs.get('inbound_window_size')) ==
